@@ -2,7 +2,7 @@
 # usage: confirm_seed.sh <seed_dir>
 # Confirms, in a scratch worktree of /repo (HEAD), that a seeded change (1) applies, (2) passes the full baseline,
 # (3) makes its demonstration fail, and that the demonstration passes without it.  Prints CONFIRMED / REJECTED.
-S="$1"; WT=/tmp/wt_confirm
+S="$1"; WT=${WT:-/tmp/wt_confirm}; TAG=$(basename "$WT")
 [ -d "$WT" ] || git -C /repo worktree add -q --detach "$WT" HEAD || exit 2
 cd "$WT" && git checkout -q --detach "$(git -C /repo rev-parse HEAD)" && git checkout -q -- . && git clean -fdq -e target
 crate=$(grep -oE "crates/[a-z_]+/tests" "$S/demo.rs" | head -1 | cut -d/ -f2)
@@ -16,12 +16,12 @@ feat=""; [ "$crate" = toml_edit ] && feat="--features serde"
 hl=$(grep -E -- "cargo test.*--features" "$S/demo.rs" | head -1)
 hf=$(echo "$hl" | grep -oE -- "--features[ =][a-z_,/]+" | head -1); [ -n "$hf" ] && feat="$hf"
 echo "$hl" | grep -q -- "--no-default-features" && feat="--no-default-features $feat"
-cargo test --offline -q -p $pkg $feat --test seed_demo > /tmp/confirm_clean.log 2>&1; clean_rc=$?
+cargo test --offline -q -p $pkg $feat --test seed_demo > /tmp/confirm_clean_$TAG.log 2>&1; clean_rc=$?
 git apply "$S/patch.diff" || { echo "REJECTED: patch does not apply"; exit 1; }
-cargo test --offline -q -p $pkg $feat --test seed_demo > /tmp/confirm_mut.log 2>&1; mut_rc=$?
+cargo test --offline -q -p $pkg $feat --test seed_demo > /tmp/confirm_mut_$TAG.log 2>&1; mut_rc=$?
 rm -f "crates/$crate/tests/seed_demo.rs"; git checkout -q -- crates/$crate/Cargo.toml 2>/dev/null
 git apply -R "$S/patch.diff"; git apply "$S/patch.diff"   # keep only the library change (Cargo.toml restored above may have been part of patch)
 base=$(cargo nextest run --workspace --no-fail-fast --tool-config-file pb:/w/lib/nextest.toml --profile pb --test-threads 16 --offline 2>&1 | grep -E "Summary" )
 git checkout -q -- . ; git clean -fdq -e target
 echo "demo on clean tree rc=$clean_rc ; demo with change rc=$mut_rc ; baseline with change: $base"
-if [ $clean_rc -eq 0 ] && [ $mut_rc -ne 0 ] && echo "$base" | grep -q "2144 passed" ; then echo "CONFIRMED $S"; exit 0; else echo "REJECTED $S"; tail -n 5 /tmp/confirm_clean.log; tail -n 5 /tmp/confirm_mut.log; exit 1; fi
+if [ $clean_rc -eq 0 ] && [ $mut_rc -ne 0 ] && echo "$base" | grep -q "2144 passed" ; then echo "CONFIRMED $S"; exit 0; else echo "REJECTED $S"; tail -n 5 /tmp/confirm_clean_$TAG.log; tail -n 5 /tmp/confirm_mut_$TAG.log; exit 1; fi
